@@ -5,12 +5,12 @@ P=C15; V="$1"; SRC=/tmp/seeded/$P/$V; WT=/tmp/wt/$P
 cd "$WT" || exit 2
 git checkout -q -- . ; git clean -fdq -e Cargo.lock -e target
 git apply "$SRC/patch.diff" || exit 1
-suite=$(CARGO_NET_OFFLINE=true cargo test --workspace --offline 2>&1 | grep -E "^test result" | awk '{p+=$4; f+=$6} END {print p" passed "f" failed"}')
+suite=$(CARGO_NET_OFFLINE=true cargo test --workspace --offline 2>&1 | grep -a -E "^test result" | awk '{p+=$4; f+=$6} END {print p" passed "f" failed"}')
 cp "$SRC/demo.rs" tests/seed_demo.rs
-with=$(CARGO_NET_OFFLINE=true cargo test --offline --features ignore_case --test seed_demo 2>&1 | grep -E "^test result" | tail -1)
-defwith=$(CARGO_NET_OFFLINE=true cargo test --offline --test seed_demo 2>&1 | grep -E "^test result" | tail -1)
+with=$(CARGO_NET_OFFLINE=true cargo test --offline --features ignore_case --test seed_demo 2>&1 | grep -a -E "^test result" | tail -1)
+defwith=$(CARGO_NET_OFFLINE=true cargo test --offline --test seed_demo 2>&1 | grep -a -E "^test result" | tail -1)
 git checkout -q -- .
-without=$(CARGO_NET_OFFLINE=true cargo test --offline --features ignore_case --test seed_demo 2>&1 | grep -E "^test result" | tail -1)
+without=$(CARGO_NET_OFFLINE=true cargo test --offline --features ignore_case --test seed_demo 2>&1 | grep -a -E "^test result" | tail -1)
 rm -f tests/seed_demo.rs
 echo "suite (default features) with change: $suite"; echo "demo (ignore_case) with change: $with"; echo "demo (default build, i-prefixed) with change: $defwith"; echo "demo (ignore_case) without change: $without"
 if echo "$suite" | grep -q " 0 failed" && echo "$with" | grep -q FAILED && echo "$without" | grep -q "test result: ok" && echo "$defwith" | grep -q "test result: ok"; then
